@@ -748,7 +748,7 @@ theorem C05_history_poison (lib : Geom → String → Pt) (cur : Option Geom) (s
     | set g' =>
       simp only [List.filter_cons, show (Step.set g').isPoison = false from rfl, Bool.not_false, if_true, runHist, ih]
     | poison k =>
-      simp only [List.filter_cons, show (Step.poison k).isPoison = true from rfl, Bool.not_true, runHist, ih]
+      simp only [List.filter_cons, show (Step.poison k).isPoison = true from rfl, Bool.not_true, runHist]
       simp [ih]
     | query c =>
       cases cur <;>
@@ -760,19 +760,6 @@ theorem C05_history_revisit (lib : Geom → String → Pt) (x y : Geom) (c c' : 
     runHist lib none [.set x, .query c, .poison 0, .set y, .query c', .set x, .query c]
       = [answer lib x c, answer lib y c', answer lib x c] := by
   simp [runHist]
-
-/-- trailing parameters that all have defaults and are not named by a keyword take their defaults -/
-theorem bindArgs_defaults (rest : List Param) (kw : List (String × String))
-    (h : ∀ q ∈ rest, q.dflt.isSome = true ∧ kw.lookup q.name = none) :
-    bindArgs rest [] kw = some (rest.map fun q => q.dflt.getD "") := by
-  induction rest with
-  | nil => rfl
-  | cons q qs ih =>
-    have hq := h q (by simp)
-    have ih' := ih (fun r hr => h r (by simp [hr]))
-    cases hd : q.dflt with
-    | none => simp [hd] at hq
-    | some v => simp [bindArgs, hq.2, hd, ih']
 
 /-- **call forms of `get_geometry_point`** (parameters `n0`, `n1 = d` by default, then parameters
     with defaults): positional, keyword in either order and mixed calls all bind the geometry `g`
@@ -806,12 +793,12 @@ theorem C05_call_forms (n0 n1 d g p : String) (rest : List Param) (hn : n0 ≠ n
   have t3 := bindArgs_defaults rest [(n1, p), (n0, g)] (look _ (by simp))
   refine ⟨?_, ?_, ?_, ?_, ?_, ?_, ?_⟩
   · simp [bindCall, sig, bindArgs, t0, tail]
-  · simp [bindCall, sig, bindArgs, t1, tail, hn, hn', hb, hb', List.lookup]
-  · simp [bindCall, sig, bindArgs, t2, tail, hn, hn', hb, hb', List.lookup]
-  · simp [bindCall, sig, bindArgs, t3, tail, hn, hn', hb, hb', List.lookup]
+  · simp [bindCall, sig, bindArgs, t1, tail, hb, List.lookup]
+  · simp [bindCall, sig, bindArgs, t2, tail, hn, hb, hb', List.lookup]
+  · simp [bindCall, sig, bindArgs, t3, tail, hn', hb, hb', List.lookup]
   · simp [bindCall, sig, bindArgs, t0, tail]
   · simp [bindCall, sig, bindArgs, t0, tail]
-  · simp [bindCall, sig, bindArgs, List.lookup, hn, hb, hb']
+  · simp [bindCall, sig, bindArgs, List.lookup, hb]
 
 /-- **call forms of the three one-argument functions**: positionally or by keyword, the same binding -/
 theorem C05_call_forms_unary (n g : String) (rest : List Param)
